@@ -5,10 +5,12 @@ Model: `IsoVerif.Pico` (M-PICO, executable, tied to crates/pico by the `pico` co
 `evalScratch` is the denotation of a call with no cache.  Statements only; lemmas live in
 `IsoVerif.Lemmas.Pico*`.
 
-The full statement `C01_statement` is FALSE of today's code: the three witness theorems below
-exhibit histories (replayed against the real crate on every run, corpus/C01) on which the model —
-which agrees with the crate — returns a stale value.  What is proved instead is the family of
-`_partial` theorems, each with its extra hypothesis spelled out.
+F1 and F2 (absent singleton then first write; remove then inner re-run) were repaired in /repo
+79c6822 and the model follows the repaired code.  The full statement `C01_statement` is still
+FALSE of today's code: the two witness theorems below exhibit histories (replayed against the real
+crate on every run, corpus/C01) on which the model — which agrees with the crate — answers
+something else than a from-scratch evaluation (a caught panic; a spurious panic caused by F22).
+What is proved is the family of `_partial` theorems, each with its extra hypothesis spelled out.
 -/
 import IsoVerif.Lemmas.Pico
 
@@ -36,22 +38,6 @@ def C01_statement : Prop := ∀ fuel cap P h, C01_statement_at fuel cap P h
 
 /-! ### witnesses: the full statement fails on today's code (known findings) -/
 
-/-- F1: read an absent singleton, set it for the first time, call again: still `None`. -/
-theorem C01_witness_absent_singleton :
-    ¬ C01_statement_at 8 10 [⟨2, .sing 0⟩] [.call 0 0, .sset 0 1, .call 0 0] :=
-  fun H => absurd (H [.call 0 0, .sset 0 1] 0 0 [] rfl) (by decide +kernel)
-
-/-- F1 through a tracked field: tracked read of the never-written map, first tracked insert. -/
-theorem C01_witness_absent_tracked_counter :
-    ¬ C01_statement_at 8 10 [⟨2, .trk 0⟩] [.call 0 0, .tins 0 7, .call 0 0] :=
-  fun H => absurd (H [.call 0 0, .tins 0 7] 0 0 [] rfl) (by decide +kernel)
-
-/-- F2: singleton removed, the inner reader re-run on its own, the outer one stays stale. -/
-theorem C01_witness_after_remove :
-    ¬ C01_statement_at 8 10 [⟨0, .call 1 .param⟩, ⟨2, .add (.sing 0) (.lit 2)⟩]
-        [.sset 0 1, .call 0 0, .srem 0, .call 1 0, .call 0 0] :=
-  fun H => absurd (H [.sset 0 1, .call 0 0, .srem 0, .call 1 0] 0 0 [] rfl) (by decide +kernel)
-
 /-- After a caught panic the same call, in the same epoch, serves the stale value. -/
 theorem C01_witness_after_panic :
     ¬ C01_statement_at 8 10 [⟨0, .src .param⟩] [.set 0 5, .call 0 0, .rem 0, .call 0 0, .call 0 0] :=
@@ -72,8 +58,8 @@ theorem C01_witness_stale_dep_panic :
 
 /-- **Stage 1** (nesting depth 0).  Extra hypotheses, both explicit: `Flat P` — no body calls a
 memoised function; `CleanCalls` — the from-scratch evaluation of every call of the history, at the
-moment of the call, succeeds without reading an absent source, singleton or tracked counter (this is
-what excludes F1/F2 and caught panics).  The history is otherwise arbitrary: set / remove of keyed
+moment of the call, does not panic (reads of ABSENT singletons / never-written tracked fields are
+allowed: that is the repaired F1/F2).  The history is otherwise arbitrary: set / remove of keyed
 sources and singletons, tracked inserts / removes, calls with every parameter shape, lookups,
 retain / clear / never-gc and collections with any capacity.  Then every call answers exactly the
 from-scratch value (or `dead`, after a collector panic — C03's business). -/
@@ -99,7 +85,7 @@ example : Flat progS1 ∧ CleanCalls 4 1 progS1 histS1 :=
 ref functions — and any history of the form `writes ++ reads`: `writes` contains no call (sets,
 removes, singleton and tracked-field writes, also retain / gc), `reads` contains no source
 operation (calls, lookups, retain / clear / never-gc, collections with any capacity, in any
-order).  Extra hypothesis: `CleanCalls`.  `exec` then simulates the strict from-scratch evaluator
+order).  Extra hypothesis: `CleanCalls`.  `exec` then simulates the from-scratch evaluator
 fuel for fuel — the dependency stack is its path, `assert_no_cycles` its cycle check — every node
 created is correct, and a node met again (same epoch, possibly after a collection re-created it)
 is served or rebuilt with the same value. -/
@@ -124,8 +110,23 @@ example : (∀ op, op ∈ writesS2 → op.isCall = false) ∧ (∀ op, op ∈ re
     CleanCalls 6 1 progS2 (writesS2 ++ readsS2) :=
   ⟨by decide, by decide, cleanCalls_of_B 6 1 progS2 _ (by decide +kernel)⟩
 
+/-! ### repaired defects (F1, F2; /repo 79c6822) — the former witness histories now satisfy the statement -/
+
+/-- F1 (repaired): read an absent singleton, set it for the first time, call again. -/
+example : C01_statement_at 8 10 [⟨2, .sing 0⟩] [.call 0 0, .sset 0 1, .call 0 0] :=
+  C01_stage1_partial 8 10 _ _ (by decide) (cleanCalls_of_B _ _ _ _ (by decide +kernel))
+
+/-- F1 through a tracked field (repaired): tracked read of the never-written map, first insert. -/
+example : C01_statement_at 8 10 [⟨2, .trk 0⟩] [.call 0 0, .tins 0 7, .call 0 0] :=
+  C01_stage1_partial 8 10 _ _ (by decide) (cleanCalls_of_B _ _ _ _ (by decide +kernel))
+
+/-- F2 (repaired): the outer function sees the removal although the inner reader re-ran on its own. -/
+example : (run 8 [⟨0, .call 1 .param⟩, ⟨2, .add (.sing 0) (.lit 2)⟩] (initS 10 [⟨0, .call 1 .param⟩, ⟨2, .add (.sing 0) (.lit 2)⟩])
+    [.sset 0 1, .call 0 0, .srem 0, .call 1 0, .call 0 0]).2 = [.ok, .val 4, .ok, .val 2, .val 2] := by
+  decide +kernel
+
 /-- `C01_statement` is therefore false. -/
 theorem C01_statement_false : ¬ C01_statement :=
-  fun H => C01_witness_absent_singleton (H 8 10 _ _)
+  fun H => C01_witness_after_panic (H 8 10 _ _)
 
 end IsoVerif.Props.C01
